@@ -139,7 +139,7 @@ def f8bTrace : List Action :=
    .frame (mkFrame 2 (fociFrame 1 1 0xFF 0xFFFF)),
    .frame (mkFrame 3 (silencerStepsFrame 10 80 true))]
 
-/-- F8c (new): BEGIN-only FociSTM (div 40) to segment 1 *without* transition (send cut after its first
+/-- F8c (repaired in the firmware; the trace is kept as a regression witness): BEGIN-only FociSTM (div 40) to segment 1 *without* transition (send cut after its first
 frame; segment 1 still counts as a plain Gain for the CPU: mode GAIN, one pattern); silencer steps
 (10, 80) strict (validated against segment 0 only); `GainSwapSegment` to segment 1, which
 `change_gain_segment` accepts without consulting the silencer guard -/
@@ -148,58 +148,10 @@ def f8cTrace : List Action :=
    .frame (mkFrame 2 (silencerStepsFrame 10 80 true)),
    .frame (mkFrame 3 [49, 1])]
 
-/-! ### an executable check of the state-dependent run condition `RunOkCore` -/
+/-! ### the `Core`-only action condition is decidable too -/
 
-instance (s : State) (seg : Nat) : Decidable (GainOkAt s seg) := by unfold GainOkAt; infer_instance
-instance (s : State) (d : Array Nat) : Decidable (GainSwapOk s d) := by unfold GainSwapOk; infer_instance
-
-def frameOkCoreB (s : State) (f : Array Nat) : Bool :=
-  decide (PayloadOk (slot1 f)) && decide (GainSwapOk s (slot1 f)) &&
-  (if u16at f DrvLayout.Header_slot_2_offset_off ≠ 0 then
-    decide (PayloadOk (slot2 f)) &&
-      (match handlePayload (preState s f) (slot1 f) with
-       | .ok (s1, _) => decide (GainSwapOk s1 (slot2 f))
-       | .error _ => true)
-   else true)
-
-theorem frameOkCoreB_sound (s : State) (f : Array Nat) (h : frameOkCoreB s f = true) : FrameOkCore s f := by
-  unfold frameOkCoreB at h
-  simp only [Bool.and_eq_true, decide_eq_true_eq] at h
-  obtain ⟨⟨h1, h2⟩, h3⟩ := h
-  refine ⟨h1, h2, fun hne => ?_⟩
-  rw [if_pos hne] at h3
-  simp only [Bool.and_eq_true, decide_eq_true_eq] at h3
-  refine ⟨h3.1, fun s1 a hp => ?_⟩
-  have := h3.2
-  rw [hp] at this
-  simpa using this
-
-def actionOkCoreB (s : State) : Action → Bool
-  | .frame f => frameOkCoreB s f
-  | _ => true
-
-def runOkCoreB : State → List Action → Bool
-  | _, [] => true
-  | s, a :: as => actionOkCoreB s a &&
-      (match stepA s a with
-       | .ok s' => runOkCoreB s' as
-       | .error _ => true)
-
-theorem runOkCoreB_sound (as : List Action) : ∀ s, runOkCoreB s as = true → RunOkCore s as := by
-  induction as with
-  | nil => intro s _; trivial
-  | cons a as ih =>
-    intro s h
-    unfold runOkCoreB at h
-    simp only [Bool.and_eq_true] at h
-    refine ⟨?_, fun s' hs' => ?_⟩
-    · cases a with
-      | frame f => exact frameOkCoreB_sound s f h.1
-      | tick t => trivial
-      | thermo on => trivial
-    · have := h.2
-      rw [hs'] at this
-      exact ih s' this
+instance (f : Array Nat) : Decidable (FrameOkCore f) := by unfold FrameOkCore; infer_instance
+instance (a : Action) : Decidable (ActionOkCore a) := by cases a <;> (unfold ActionOkCore; infer_instance)
 
 /-- a multi-frame FociSTM write to segment 1 without transition (BEGIN frame, END frame), a strict
 silencer request, then a FociSTM swap to segment 1 with Immediate transition -/
@@ -209,21 +161,16 @@ def multiTrace : List Action :=
    .frame (mkFrame 3 (silencerStepsFrame 10 45 true)),
    .frame (mkFrame 4 ([68, 1, 0xFF] ++ List.replicate 13 0))]
 
-/-- (does the history satisfy `RunOkCore` from the given start?, the summaries after each action) -/
-def checkFrom (r : M State) (as : List Action) : Bool × List (List Nat) :=
-  match r with
-  | .ok s => (runOkCoreB s as, trail s as)
-  | .error _ => (false, [[]])
-
-def checkFromNew (as : List Action) : Bool × List (List Nat) := checkFrom (Fw.new 249 0) as
-
-theorem checkFrom_sound (r : M State) (as : List Action) (h : (checkFrom r as).1 = true) :
-    ∃ s0, r = .ok s0 ∧ RunOkCore s0 as := by
-  cases r with
-  | error e => cases h
-  | ok s0 => exact ⟨s0, rfl, runOkCoreB_sound as s0 h⟩
-
-theorem checkFromNew_sound (as : List Action) (h : (checkFromNew as).1 = true) :
-    ∃ s0, Fw.new 249 0 = .ok s0 ∧ RunOkCore s0 as := checkFrom_sound _ as h
+/-- multi-frame writes without transition interleaved with every kind of swap, including a
+`GainSwapSegment` to the segment whose write was cut (the former F8c pattern) -/
+def swapsTrace : List Action :=
+  [.frame (mkFrame 1 (fociFrame 1 1 0xFE 40)),
+   .frame (mkFrame 2 [49, 1]),
+   .frame (mkFrame 3 (silencerStepsFrame 10 80 true)),
+   .frame (mkFrame 4 [49, 1]),
+   .frame (mkFrame 5 ([68, 1, 0xFF] ++ List.replicate 13 0)),
+   .frame (mkFrame 6 ([67, 1, 0xFF] ++ List.replicate 13 0)),
+   .frame (mkFrame 7 ([17, 1, 0xFF] ++ List.replicate 13 0)),
+   .frame (mkFrame 8 [49, 0])]
 
 end Autd3.SilGuard
